@@ -50,7 +50,9 @@ def _panic_origin(stderr):
         return None
     frames = re.findall(r"^\t(/\S+\.go):(\d+)", g.group(1), re.M)
     for path, line in frames:
-        if "/src/runtime/" in path or "/go/pkg/mod/" in path and "golang.org/toolchain" in path:
+        # the standard library and third-party modules are not where a panic comes from: the first frame of the repository
+        # under test or of the harness decides
+        if "/src/runtime/" in path or "/go/pkg/mod/" in path or "/usr/local/go/" in path or "/opt/veriftools/go" in path:
             continue
         return m.group(1).strip(), "%s:%s" % (path, line)
     return None
